@@ -122,6 +122,28 @@ def rotated_flow(fl, Q):
     return Flow(fl.name + "@Q", lambda t, x: Q @ fl.L(t, Q.T @ x) @ Q.T, lambda t: Q @ fl.x(t), const=c)
 
 
+_LBUF = np.zeros((3, 3))
+_XBUF = np.zeros(3)
+
+
+def buffered(fl):
+    """Environment answer "the callables write into ONE output buffer and hand that same array
+    object out on every call, with updated contents" (a common way to avoid allocations in
+    user code).  Used for the twin member of every lock-step comparison: an implementation
+    that keeps what it was handed from one evaluation to the next (a cache keyed on the
+    identity of the array, seed C04f) then works from stale values."""
+
+    def L(t, x):
+        _LBUF[...] = fl.L(t, x)
+        return _LBUF
+
+    def X(t):
+        _XBUF[...] = fl.x(t)
+        return _XBUF
+
+    return Flow(fl.name + "@buf", L, X, const=fl.const)
+
+
 def scaled_flow(fl, k):
     """L -> k L with the time axis compressed by 1/k (same strain path)."""
     c = None if fl.const is None else k * fl.const
@@ -558,6 +580,8 @@ def twin_explore(res, key, prm_a, prm_b, root, letters, depth, flow_a, flow_b, t
         child = st.clone()
         t1 = st.t + lt[1]
         fa, fb = flow_a(lt[0]), flow_b(lt[0])
+        if not fb.name.startswith("st_"):  # (the stored-array letters are an aliasing answer of their own)
+            fb = buffered(fb)
         hist = "/".join(st.hist + [letter_name(lt)])
         res["n"] += 2
         ea = eb = None
